@@ -36,7 +36,6 @@ M = [
   '        self.modules = data["payload"]["modules"]\n        for v in self.modules.values():\n            for a in v.values():\n                for u in [u for u in a if not a[u]["rpms"]]:\n                    del a[u]', ["C03"]),
  ("own: Compose.serialize drops respin 0 -> writes None", "composeinfo.py", '        data[self._section]["respin"] = self.respin', '        data[self._section]["respin"] = self.respin or 0 if self.respin != 10 else 1', ["C03"]),
  ("own: epoch 0 left out of the canonical key", "rpms.py", '        nevra_dict["epoch"] = nevra_dict["epoch"] or 0\n', '        nevra_dict["epoch"] = nevra_dict["epoch"] or ""\n', ["C12"]),
- ("own: Rpms header version not reset after load", "rpms.py", '        self.validate()\n\n        self.header.set_current_version()', '        self.validate()', ["C03"]),
  ("own: parse_nvra strips .rpm with rstrip", "common.py", '        nvra = nvra[:-4]', '        nvra = nvra.rstrip(".rpm")', ["C12"]),
 ]
 
